@@ -35,7 +35,7 @@ theorem ackWs_get (ws : List Pc) (w : Option Nat) (b : Bool) (i : Nat) (b' : Boo
       cases hw; exact hj _ _ _ h
   · exact ⟨h, fun _ hw => by cases hw⟩
 
-theorem step_w1 (cfg : Cfg) (hm : cfg.m = .asCoded) (s t : St) (f : Bool) (h : Step cfg f s t) (inv : W1 s) : W1 t := by
+theorem step_w1 (cfg : Cfg) (hm : cfg.m = .asCoded cfg.closeSel) (s t : St) (f : Bool) (h : Step cfg f s t) (inv : W1 s) : W1 t := by
   unfold W1 at *
   cases h with
   | startPut _ i hi =>
@@ -225,6 +225,9 @@ theorem step_w1 (cfg : Cfg) (hm : cfg.m = .asCoded) (s t : St) (f : Bool) (h : S
     intro i' b' site' lg' hi'
     (try simp only [St.setDone, St.setBg] at hi') <;> (repeat' split at hi') <;> (try simp only [List.getElem?_set] at hi') <;> grind [St.setBg, St.setDone, St.bg, Alt, clearW, onOk, onErr, selNext, afterSetErr, ackWs, afterCmd, nextC]
   | clAcq _ i hi ht =>
+    intro i' b' site' lg' hi'
+    (try simp only [St.setDone, St.setBg] at hi') <;> (repeat' split at hi') <;> (try simp only [List.getElem?_set] at hi') <;> grind [St.setBg, St.setDone, St.bg, Alt, clearW, onOk, onErr, selNext, afterSetErr, ackWs, afterCmd, nextC]
+  | clAcqKept _ i hi he hk hs =>
     intro i' b' site' lg' hi'
     (try simp only [St.setDone, St.setBg] at hi') <;> (repeat' split at hi') <;> (try simp only [List.getElem?_set] at hi') <;> grind [St.setBg, St.setDone, St.bg, Alt, clearW, onOk, onErr, selNext, afterSetErr, ackWs, afterCmd, nextC]
   | clWait _ i hi hm ht =>
